@@ -125,7 +125,7 @@ func sceneRespond(o ReqOpts) {
 		}
 	}
 	// ---- records
-	chk("C08 C02 C16 C01 C04 C11", vf.All(!k.IsRequestActive(ctx, rid), !vf.Store(ctx).Has(types.GetActiveRequestKey(Svc, s.Provs[0], s.ExpH, rid))), "marker-removed-so-no-second-settlement")
+	chk("C08 C02 C16 C01 C04 C11 C19", vf.All(!k.IsRequestActive(ctx, rid), !vf.Store(ctx).Has(types.GetActiveRequestKey(Svc, s.Provs[0], s.ExpH, rid))), "marker-removed-so-no-second-settlement")
 	resp, ok := k.GetResponse(ctx, rid)
 	chk("C12 C16", vf.All(ok, resp.Output == output, resp.Provider.Equals(s.Provs[0]), resp.RequestContextBatchCounter == bc), "response-recorded")
 	chk("C12 C16", vf.All(nreq == s.M, nresp == nresp0+1, nact == nact0-1), "records-move-pending-to-answered")
